@@ -2,6 +2,7 @@ import PhyVerif.Driver.Json
 import PhyVerif.Driver.C01
 import PhyVerif.Model.C02
 import PhyVerif.Model.C02b
+import PhyVerif.Model.C02c
 namespace PhyVerif.Driver
 open Lean PhyVerif PhyVerif.C01 PhyVerif.C02
 
@@ -35,6 +36,13 @@ def jEval (res : Option (List (List TCell))) : Json :=
     Json.mkObj [("ids", jMat (m.map fun row => row.map (·.1))),
                 ("toks", match traces with | [t] => jNats t | [] => jNats [] | _ => Json.str "non-uniform")]
 
+/-- what the caller's in-place post-processing does to a cell in this driver: the cell id moves out of the recording
+(`+ scribbleMark`), so a scribbled cell that is read back can never be mistaken for a cell of the recording -/
+def scribbleMark : Nat := 1000000000
+
+def scribbleFn (blk : List (List TCell)) : List (List TCell) :=
+  blk.map fun row => row.map fun c => (c.1 + scribbleMark, c.2)
+
 def runC02 (op : String) (j : Json) : R Json := do
   match op with
   | "program" =>
@@ -43,9 +51,15 @@ def runC02 (op : String) (j : Json) : R Json := do
     let steps ← fld j "steps" >>= asArr
     -- derivations run statement by statement on the object store (Model/C02b); evaluation reads the heap of
     -- per-reader operation lists `Store.abs` (theorem appendOp_refines_derive: this is `derive` on the abstract heap)
+    -- array objects by address (Model/C02c): the parts are the first `np` objects, every evaluation allocates its block
+    -- (`getitem`), a `scribble` evaluation is followed by the caller overwriting that block in place; all evaluations
+    -- read the storage `mem.parts np` as it is THEN
+    let np := parts.length
+    let mut mem : Mem TCell := ⟨parts⟩
     let mut st : Store TCell := ⟨[[]], [0]⟩
     let mut h : Heap TCell := [[]]
     let mut agree := true
+    let mut blockIsEval := true
     let mut outs : List Json := []
     for s in steps do
       let k ← getStr s "k"
@@ -62,17 +76,33 @@ def runC02 (op : String) (j : Json) : R Json := do
         agree := agree && (heapNames st.abs == heapNames h)
       | "eval" =>
         let r ← getNat s "reader"; let it ← fld s "item" >>= asItem
-        let res := match s.getObjVal? "cols" with
-          | .ok v => if v.isNull then pure (eval st.abs parts r it) else do
-              let c ← asColSel v
-              pure (evalCols st.abs parts r it c)
-          | .error _ => pure (eval st.abs parts r it)
-        outs := outs ++ [jEval (← res)]
+        let scr := match s.getObjVal? "scribble" with | .ok (Json.bool b) => b | _ => false
+        let csel ← match s.getObjVal? "cols" with
+          | .ok v => if v.isNull then pure none else (asColSel v).map some
+          | .error _ => pure none
+        -- `reader[item, cols]` evaluates a clone carrying one more `cols` operation (`evalCols`)
+        let hp := match csel with
+          | none => (st.abs, r)
+          | some c => let d := derive st.abs r (.cols c); (d.1, d.2)
+        -- theorem getitem_block: the block handed out holds what `eval` / `evalCols` say on the storage as it is now
+        let ev := match csel with
+          | none => eval st.abs (mem.parts np) r it
+          | some c => evalCols st.abs (mem.parts np) r it c
+        let got := getitem mem np (hp.1.getD hp.2 []) it
+        blockIsEval := blockIsEval && ((jEval ev).compress == (jEval (got.map fun p => p.1.block p.2)).compress)
+        match got with
+        | none => outs := outs ++ [Json.null]
+        | some (m', a) =>
+          outs := outs ++ [jEval (some (m'.block a))]
+          -- a block the caller only looks at is garbage afterwards (the memory stays as it was); a block the caller
+          -- writes into stays: later evaluations read `mem.parts np` of the memory AFTER the write
+          if scr then
+            mem := scribble m' a scribbleFn
       | _ => throw s!"C02 step {k}"
     -- `store_refines_heap`: after EVERY derivation the operation lists of all readers of the object store equal those
     -- of the abstract heap, operation by operation (names of `opName`), not only in number and length
     pure (Json.mkObj [("evals", Json.arr outs.toArray), ("n_readers", jNat st.readers.length),
-                      ("store_refines_heap", Json.bool agree),
+                      ("store_refines_heap", Json.bool agree), ("block_is_eval", Json.bool blockIsEval),
                       ("ops", Json.arr ((heapNames st.abs).map fun ops => Json.arr (ops.map fun n =>
                           if n.1 then Json.mkObj [("tok", jNats n.2.1)]
                           else Json.mkObj [("cols", jNat n.2.2.1)]).toArray).toArray)])
